@@ -197,7 +197,7 @@ func frontHeaders(q frontReq, h http.Header) {
 	}
 	switch q.ctype {
 	case "xml":
-		h.Set("Content-Type", "application/xml; charset=utf-8")
+		h.Set("Content-Type", xmlCTSpelling(q.level*7+len(q.method)+len(q.body)+len(q.prefix)))
 	case "textxml":
 		h.Set("Content-Type", "text/xml")
 	case "obj":
